@@ -28,6 +28,7 @@ def misc():
 
 class Harness(cm.BaseA):
     id = "C16"
+    fresh_quick = True  # every transition is re-executed from a fresh world (hidden state, aliasing)
     rule = (
         "synchronous product of an EvoWorklist world and a FluentWorklist world with identical labware: every "
         "sequence of <= depth core operations (failing ones included, at most two per execution) followed by any one "
@@ -42,13 +43,14 @@ class Harness(cm.BaseA):
         return 2 if tier == "quick" else 3
 
     def bounds(self, tier):
-        return {"depth": self.depth(tier), "sets": ["W1", "W3"], "auto_split": [True, False]}
+        return {"depth": self.depth(tier), "sets": ["W1", "W3", "W4"], "auto_split": [True, False]}
 
     def configs(self, tier):
         out = []
         for s in ("W1", "W3"):
             for asplit in (True, False):
                 out.append({"set": s, "labware": c01.SETS[s][0](), "auto_split": asplit})
+        out.append({"set": "W4", "labware": c01.SETS["W4"][0](), "auto_split": True})
         return out
 
     def _sub(self, config, cls):
@@ -60,10 +62,14 @@ class Harness(cm.BaseA):
     def core_events(self, W, config):
         if W["failed"] >= 2:
             return []
+        if config["set"] == "W4":
+            return c01.SETS["W4"][1]()
         extra = c03.failing_W1()[:6] if config["set"] == "W1" else c03.failing_W3()[:6]
         return c01.SETS[config["set"]][1]() + extra + misc()[:2] + trough_rows()[:1]
 
     def full_events(self, W, config):
+        if config["set"] == "W4":
+            return c01.SETS["W4"][2]("quick") + misc()
         f = c03.failing_W1() if config["set"] == "W1" else c03.failing_W3()
         return c01.SETS[config["set"]][2]("quick") + f + misc() + trough_rows()
 
